@@ -993,3 +993,14 @@ PROPS["C17"]["does_not_cover"] = [x.replace("files touched by DbInner::open befo
 # ---------------------------------------------------------------- U22 also serves C14 (an old index dropped before all of it was migrated orphans its values)
 PROPS["C14"]["kani_units"] = list(PROPS["C14"]["kani_units"]) + ["U22"]
 PROPS["C14"]["claim"] = PROPS["C14"]["claim"] + " Growth bookkeeping (Kani, bounded: two queued older indexes): trigger_reindex queues the old index behind the ones already waiting and leaves the progress of the migration under way alone; drop_index removes the migrated table and starts the next one from its first chunk -- an old table dropped before all of it was moved would leave its values without an index entry."
+
+# ---------------------------------------------------------------- U63 (Kani: what Log::open_log_file makes of the head of a log file)
+for (_n, _sh, _q) in (("u63_open_log_file_len0", "empty file", False), ("u63_open_log_file_len1", "1 byte", False), ("u63_open_log_file_len8", "8 bytes (one short of a record header)", True),
+                      ("u63_open_log_file_len9", "a complete header, arbitrary bytes", True), ("u63_open_log_file_len9_read_fails", "a complete header, read(2) fails", False)):
+    M_LOG.harnesses.append(H(_n, "U63", kind="bounded", tiers=("quick", "thorough") if _q else ("thorough",), shape="Log::open_log_file on a log file holding " + _sh,
+                             bound="file lengths 0, 1, 8, 9; open(2) / fstat / read(2) / lseek / close by contract over a scripted file"))
+UNIT_META["U63"] = {"functions": ["log::Log::{open_log_file, read_first_record_id}"], "assumes": ["OpenOptions::open, File::metadata, Metadata::len, <File as Read>::read, <File as Seek>::seek, close(2) replaced by contracts over a scripted file; std's read_exact and io::Error classification are the real code"]}
+for _p in ("C13", "C16"):
+    PROPS[_p]["kani_units"] = list(PROPS[_p]["kani_units"]) + ["U63"]
+    PROPS[_p]["claim"] = PROPS[_p]["claim"] + " Head of a log file (Kani, bounded: lengths 0 / 1 / 8 / 9, contents arbitrary): Log::open_log_file reports a file that ends before its first record header is complete as holding no record (Log::open then discards it: a crash while the first record was being appended must not make every later open fail), reports a read failure other than a clean end of file, and otherwise returns the record id the header holds with the file rewound for replay."
+PROPS["C13"]["does_not_cover"] = [x.replace(" and the first-record-id read of open_log_file", "") for x in PROPS["C13"]["does_not_cover"]]
